@@ -189,7 +189,7 @@ impl Property for C10 {
     }
     fn cases(&self, tier: Tier) -> u32 {
         if tier.thorough() {
-            1_500_000
+            4_000_000
         } else {
             60_000
         }
